@@ -35,7 +35,8 @@ type hdrVariant struct {
 
 // methods are case-sensitive (RFC 7230 3.1.1): "get" is not GET
 var c11Methods = []string{"GET", "POST", "HEAD", "PUT", "get", "Get", "GETS", "DELETE"}
-var c11Versions = []string{"HTTP/1.1", "HTTP/1.0"}
+// (HTTP/1.2 is at least 1.1 and reaches the handler through net/http; HTTP/2.0 request lines never do: the server answers them with 505 itself)
+var c11Versions = []string{"HTTP/1.1", "HTTP/1.0", "HTTP/1.2"}
 var c11Conn = []hdrVariant{
 	{[]string{"Upgrade"}, true, false},
 	{[]string{"upgrade"}, true, false},
@@ -295,7 +296,7 @@ func runC11(r *Run) {
 		sv = genSubVariant(t)
 		si = len(c11Subs)
 	}
-	valid := method == "GET" && version == "HTTP/1.1" && cv.ok && uv.ok && wv.ok && kv.ok
+	valid := method == "GET" && version != "HTTP/1.0" && cv.ok && uv.ok && wv.ok && kv.ok
 	dontCare := wv.dc
 	if !valid {
 		nPipe = 0
